@@ -31,6 +31,7 @@ import (
 	"github.com/emersion/go-msgauth/dmarc"
 	"github.com/foxcpp/maddy/framework/address"
 	"github.com/foxcpp/maddy/framework/dns"
+	"golang.org/x/net/idna"
 	"golang.org/x/net/publicsuffix"
 )
 
@@ -264,5 +265,16 @@ func ExtractFromDomain(hdr textproto.Header) (string, error) {
 		return "", fmt.Errorf("dmarc: malformed From header field: %w", err)
 	}
 
+	// The domain may be written using U-labels. DNS queries, the public
+	// suffix list and the identifiers authenticated by DKIM and SPF use
+	// A-labels: without the conversion the published policy is never found
+	// and nothing is aligned.
+	domain, err = fromDomainIDNA.ToASCII(domain)
+	if err != nil {
+		return "", fmt.Errorf("dmarc: malformed From header field: %w", err)
+	}
+
 	return domain, nil
 }
+
+var fromDomainIDNA = idna.New(idna.MapForLookup())
